@@ -424,3 +424,202 @@ func isErrOf(x *Sym, call *ssa.Call) bool {
 	}
 	return false
 }
+
+// checkJoinOperation (C03.R7): PlayerJoin, path by path: unknown id → not-found; known but
+// without a seat → invalid action; already seated-in → nothing; otherwise the player is
+// marked seated-in AND the seat manager is told, and its error is returned.
+func checkJoinOperation(c *Ctx, rule string) {
+	p := c.P
+	var join *ssa.Function
+	for _, ss := range p.FieldStores("TablePlayerState", "IsIn") {
+		if b, isB := ss.Val.ConstBool(); isB && b && !storeIsLocal(ss.Instr) {
+			join = ss.Fn
+		}
+	}
+	if join == nil || len(join.Params) != 2 {
+		c.Bad(rule, "join-operation", "-", "join operation not found")
+		return
+	}
+	id := join.Params[1]
+	atom := func(g Guard) (string, bool, bool) {
+		s := g.Cond.Strip()
+		if cm := g.AsCmp(); cm != nil {
+			l, r := cm.L.Strip(), cm.R.Strip()
+			z, isZ := r.ConstInt()
+			if isZ && z == -1 && (cm.Op == token.EQL || cm.Op == token.NEQ) {
+				if l.IsCall("Table.FindPlayerIdx") && symIsParam(l.Args[len(l.Args)-1], id) {
+					return "known", cm.Op == token.NEQ, true
+				}
+				if l.IsField("TablePlayerState", "Seat") {
+					return "has-seat", cm.Op == token.NEQ, true
+				}
+			}
+			if r.IsNil() && l.IsCall("SeatManager.JoinPlayers") {
+				return "", false, true // the seat manager's answer: not an input condition
+			}
+			return "", false, true // conditions about the ready group etc. do not decide membership
+		}
+		if s.IsField("TablePlayerState", "IsIn") {
+			return "already-in", g.Val, true
+		}
+		return "", false, true
+	}
+	isMark := func(in ssa.Instruction) bool {
+		ss := p.storeSite(in)
+		return ss != nil && ss.Owner == "TablePlayerState" && ss.Field == "IsIn"
+	}
+	isTell := func(in ssa.Instruction) bool {
+		ci, isC := in.(ssa.CallInstruction)
+		return isC && calleeName(ci.Common()) == "SeatManager.JoinPlayers"
+	}
+	d, nExit := "", 0
+	wk := &Walker{P: p, Fn: join, IsEvent: func(in ssa.Instruction) bool { return isMark(in) || isTell(in) }, OnExit: func(in ssa.Instruction, st *WState) {
+		r, isR := in.(*ssa.Return)
+		if !isR || d != "" {
+			return
+		}
+		nExit++
+		known := map[string]bool{}
+		for _, g := range st.PathGuards(p) {
+			nm, v, _ := atom(g)
+			if nm != "" {
+				known[nm] = v
+			}
+		}
+		marked, told := false, false
+		for _, e := range st.Events {
+			marked = marked || isMark(e)
+			told = told || isTell(e)
+		}
+		res := p.Sym(retValue(r, 0)).Strip()
+		sent := ""
+		if res.Kind == "global" {
+			sent = res.Name[strings.LastIndex(res.Name, ".")+1:]
+		}
+		k, kk := known["known"]
+		hs, hk := known["has-seat"]
+		ai, ak := known["already-in"]
+		switch {
+		case kk && !k:
+			if sent != "ErrTablePlayerNotFound" || marked || told {
+				d = "an unknown player id is not refused with the not-found error before anything is changed"
+			}
+		case !kk:
+			d = "the join operation does not test whether the player is at the table"
+		case hk && !hs:
+			if sent != "ErrTablePlayerInvalidAction" || marked || told {
+				d = "a player without a seat is not refused before anything is changed"
+			}
+		case !hk:
+			d = "the join operation does not test whether the player holds a seat"
+		case ak && ai:
+			if !res.IsNil() || marked || told {
+				d = "joining twice is not a no-op"
+			}
+		case !ak:
+			d = "the join operation does not test whether the player is already seated-in"
+		default:
+			if !marked || !told {
+				d = "a seated, not yet seated-in player can leave the join operation without being marked seated-in in both the table and the seat manager (exit at " + p.InstrPos(r) + ")"
+			} else if !(res.IsNil() || isJoinErr(res)) {
+				d = "the join operation returns " + res.String()
+			}
+		}
+	}}
+	wk.Run()
+	if wk.Aborted || nExit == 0 {
+		d = "cannot enumerate the exits of the join operation"
+	}
+	c.Check(d == "", rule, "join-operation:decisions", p.Pos(join.Pos()), fmt.Sprintf("%d exit state(s): refuse unknown / unseated; no-op when already in; otherwise mark + tell the seat manager", nExit), "join: "+d)
+}
+
+func isJoinErr(s *Sym) bool {
+	s = s.Strip()
+	return s.IsCall("SeatManager.JoinPlayers") || (s.Kind == "extract" && s.Args[0].IsCall("SeatManager.JoinPlayers"))
+}
+
+// checkReserveBranches (C03.R5 part): buy-in (a new seat) exactly when the id is not at the
+// table, top-up otherwise; the batch update applies each half whenever its list is non-empty.
+func checkReserveBranches(c *Ctx, rule string) {
+	p := c.P
+	known := func(gs []Guard, want bool) bool {
+		return cmpHolds(gs, func(l, r *Sym, op token.Token) bool {
+			z, isZ := r.ConstInt()
+			wantOp := token.NEQ
+			if !want {
+				wantOp = token.EQL
+			}
+			return isZ && z == -1 && op == wantOp && l.Strip().IsCall("Table.FindPlayerIdx")
+		})
+	}
+	n := 0
+	for _, f := range p.Funcs {
+		if !inPkg(p, f, "") || f.Parent() != nil {
+			continue
+		}
+		var add ssa.CallInstruction
+		for _, ci := range Calls(f) {
+			if calleeName(ci.Common()) == "tableEngine.batchAddPlayers" {
+				add = ci
+			}
+		}
+		if add == nil {
+			continue
+		}
+		var topups []*StoreSite
+		for _, ss := range p.Stores([]*ssa.Function{f}) {
+			if ss.Owner == "TablePlayerState" && ss.Field == "Bankroll" && !storeIsLocal(ss.Instr) {
+				topups = append(topups, ss)
+			}
+		}
+		if len(topups) == 0 {
+			continue
+		}
+		n++
+		c.Check(known(p.Guards(add), false), rule, "reserve:buy-in-only-unknown", p.InstrPos(add), "new seat only for an id not at the table", "a reservation adds a new player entry although (or only when) the id is already at the table")
+		for _, ss := range topups {
+			c.Check(known(p.Guards(ss.Instr), true), rule, "reserve:top-up-only-known", p.InstrPos(ss.Instr), "top-up only for an id at the table", "a reservation tops up a player without that id having been found at the table")
+		}
+	}
+	c.Min(rule, "operations choosing between buy-in and top-up", n, 1)
+	// batch update halves
+	for _, f := range p.Funcs {
+		if !inPkg(p, f, "") || f.Parent() != nil {
+			continue
+		}
+		var add, rem ssa.CallInstruction
+		for _, ci := range Calls(f) {
+			switch calleeName(ci.Common()) {
+			case "tableEngine.batchAddPlayers":
+				add = ci
+			case "tableEngine.batchRemovePlayers":
+				rem = ci
+			}
+		}
+		if add == nil || rem == nil || len(f.Params) != 3 {
+			continue
+		}
+		half := func(ci ssa.CallInstruction, list *ssa.Parameter, what string) {
+			ok := true
+			for _, g := range p.Guards(ci) {
+				cm := g.AsCmp()
+				if cm == nil {
+					ok = false
+					continue
+				}
+				l, r := cm.L.Strip(), cm.R.Strip()
+				z, isZ := r.ConstInt()
+				nonEmpty := l.IsCall("len") && symIsParam(l.Args[0], list) && isZ && ((cm.Op == token.GTR && z == 0) || (cm.Op == token.GEQ && z <= 1) || (cm.Op == token.NEQ && z == 0))
+				otherErr := r.IsNil() && cm.Op == token.EQL
+				loopDone := l.Kind == "ind" // a preceding loop over the list has finished
+				if !nonEmpty && !otherErr && !loopDone {
+					ok = false
+				}
+			}
+			a := p.Sym(ci.Common().Args[len(ci.Common().Args)-1])
+			c.Check(ok && symIsParam(a, list), rule, "batch-update:"+what, p.InstrPos(ci), what+" applied with its own list whenever that list is non-empty", "the "+what+" half of a batch update is skipped for a non-empty list or given another list")
+		}
+		half(rem, f.Params[2], "leave")
+		half(add, f.Params[1], "join")
+	}
+}
